@@ -114,12 +114,9 @@ pub fn roundtrip(x: &str) -> RoundTrip {
             return RoundTrip::Fail { a1, failure: Failure { sig: "reparse-panic".into(), detail: format!("front end panicked on formatted text: {p}"), formatted: Some(y) } }
         }
     };
-    if astcanon::canon_compact(&a1) == astcanon::canon_compact(&a2) {
-        return RoundTrip::Ok { a1, formatted: y };
-    }
-    let c1 = astcanon::canon(&a1);
-    let c2 = astcanon::canon(&a2);
-    match astcanon::first_diff(&c1, &c2) {
+    let c1 = astcanon::canon_compact(&a1);
+    let c2 = astcanon::canon_compact(&a2);
+    match astcanon::first_diff_compact(&c1, &c2) {
         None => RoundTrip::Ok { a1, formatted: y },
         Some(d) => {
             let detail = format!("AST changed at {}:\n  before: {}\n  after:  {}", d.path, d.left, d.right);
@@ -141,7 +138,7 @@ pub struct KnownDef {
 /// Table of formatter findings (root cause -> construct -> failure shapes). An entry is *active* only while
 /// known-findings.txt lists its key as `open:` for C08; remove the line there and the construct is generated again.
 pub const FMT_KNOWN: &[KnownDef] = &[
-    KnownDef { key: "printer:param-mut-dropped", switch: "param.mut=1", sig_any: &["Param.is_mut:is_mut:true->is_mut:false"] },
+    KnownDef { key: "printer:param-mut-dropped", switch: "param.mut=1", sig_any: &["Param.is_mut:true->false"] },
     KnownDef { key: "printer:fn-type-params-dropped", switch: "fn.type_params=1", sig_any: &["FunctionDecl.type_params:"] },
     KnownDef { key: "printer:newtype-body-no-colon", switch: "newtype.methods=1", sig_any: &["reparse:Expected declaration, found Indent"] },
     KnownDef { key: "printer:float-integral", switch: "lit.float.integral", sig_any: &["Float(->Int(", "relex:Invalid integer literal"] },
@@ -155,7 +152,7 @@ pub const FMT_KNOWN: &[KnownDef] = &[
     KnownDef { key: "printer:bytes-unescaped", switch: "lit.bytes.special", sig_any: &["Bytes", "relex:", "reparse:"] },
     KnownDef { key: "printer:if-expr", switch: "expr.if", sig_any: &["reparse:", "relex:", "If("] },
     KnownDef { key: "printer:slice-step-no-end", switch: "slice.step_no_end", sig_any: &["reparse:Expected expression, found Punctuation(ColonColon)"] },
-    KnownDef { key: "printer:ctor-pattern-empty-parens", switch: "pattern.ctor.args=0", sig_any: &["Constructor(->node:Binding("] },
+    KnownDef { key: "printer:ctor-pattern-empty-parens", switch: "pattern.ctor.args=0", sig_any: &["pattern:Constructor(->Binding("] },
     KnownDef { key: "printer:compound-target-precedence", switch: "assign.compound_target", sig_any: &["FieldAssignmentStmt.value", "IndexAssignmentStmt.value"] },
     KnownDef { key: "printer:docstring-unescaped", switch: "docstring.special", sig_any: &["declarations.Docstring:", "relex:", "reparse:"] },
     KnownDef { key: "printer:import-crate-bare", switch: "import.path.crate_bare", sig_any: &["reparse:Expected '::' or '.' after 'crate'"] },
